@@ -167,7 +167,7 @@ func ExploreAuto(sc *Scenario, opts ExploreOpts) *ExploreStats {
 const defaultMaxStates = 3_000_000
 
 // boundedStateCap limits the visited set of one preemption-bounded search (9 bytes per state, 16 workers).
-const boundedStateCap = 12_000_000
+const boundedStateCap = 8_000_000
 
 // noSleepSets disables the sleep-set reduction (used to cross-check it).
 var noSleepSets = false
@@ -281,20 +281,29 @@ func Explore(sc *Scenario, opts ExploreOpts) *ExploreStats {
 	if !opts.NoCache {
 		visited = sched.NewStateSet()
 	}
+	// a pending alternative = the first idx choices of an earlier run (shared array) + one different choice
 	type item struct {
-		prefix   []uint8
+		run      []uint8
+		idx      int32
+		tid      uint8
 		sleep    uint8
-		preempts int
+		preempts int32
 	}
-	stack := []item{{nil, 0, 0}}
+	stack := []item{{nil, -1, 0, 0, 0}}
+	var prefixBuf []uint8
 	seenViol := map[string]bool{}
 	first := true
 	for len(stack) > 0 {
 		it := stack[len(stack)-1]
 		stack = stack[:len(stack)-1]
-		res, inst := runOnce(sc, it.prefix, it.sleep, visited, false)
+		prefixBuf = prefixBuf[:0]
+		if it.idx >= 0 {
+			prefixBuf = append(append(prefixBuf, it.run[:it.idx]...), it.tid)
+		}
+		itPrefix := prefixBuf
+		res, inst := runOnce(sc, itPrefix, it.sleep, visited, false)
 		st.Executions++
-		newFrom := len(it.prefix) - 1
+		newFrom := len(itPrefix) - 1
 		if newFrom < 0 {
 			newFrom = 0
 		}
@@ -438,8 +447,9 @@ func Explore(sc *Scenario, opts ExploreOpts) *ExploreStats {
 			}
 		}
 		// push the unexplored alternatives of every decision point beyond the prefix
-		base := len(it.prefix)
-		cnt := it.preempts
+		base := len(itPrefix)
+		cnt := int(it.preempts)
+		var runTids []uint8
 		for i := base; i < len(res.Points); i++ {
 			p := res.Points[i]
 			alts := p.Enabled &^ p.Sleep &^ (1 << p.Tid)
@@ -454,12 +464,13 @@ func Explore(sc *Scenario, opts ExploreOpts) *ExploreStats {
 						if alts&(1<<t) == 0 {
 							continue
 						}
-						np := make([]uint8, i+1)
-						for j := 0; j < i; j++ {
-							np[j] = res.Points[j].Tid
+						if runTids == nil {
+							runTids = make([]uint8, len(res.Points))
+							for j := range res.Points {
+								runTids[j] = res.Points[j].Tid
+							}
 						}
-						np[i] = t
-						stack = append(stack, item{np, sl, cost})
+						stack = append(stack, item{runTids, int32(i), t, sl, int32(cost)})
 						sl |= 1 << t
 					}
 				}
